@@ -44,11 +44,11 @@ impl VarInt {
     pub fn get_varint_bytes(length: u64) -> Vec<u8> {
         if length <= 252 {
             vec![length as u8]
-        } else if length <= 0xff {
+        } else if length <= 0xffff {
             let mut push1 = vec![0xfd];
             push1.extend((length as u16).to_le_bytes());
             push1
-        } else if length <= 0xffff {
+        } else if length <= 0xffffffff {
             let mut push2 = vec![0xfe];
             push2.extend((length as u32).to_le_bytes());
             push2
